@@ -31,12 +31,13 @@ FAMILIES = {
     "code_q": (gen_cfg("SEQ", caps="{100000}", kinds='{"resp"}', maxlen=0, cfgs="{0, 2}", L='"CODE"'), 1, 8),
     "lines_q": (gen_cfg("SEQ", caps="{0, 1, 2}", kinds='{"req", "resp", "hdrs"}', phases='{"HLINE"}', L='"LINES"'), 8, 2),
     "methods": (gen_cfg("SEQ", caps="{1, 100000}", kinds='{"req"}', maxlen=0, L='"METHODS"'), 2, 4),
+    "reasons": (gen_cfg("SEQ", caps="{100000}", kinds='{"resp"}', maxlen=0, cfgs="{0, 2}", L='"REASONS"'), 2, 4),
     "versions": (gen_cfg("SEQ", caps="{100000}", kinds='{"req", "resp"}', maxlen=0, cfgs="{0, 1, 2}", L='"VERSIONS"'), 2, 4),
     # ---------------- thorough tier
     "byte_t": (gen_cfg("BYTE", caps="{0, 1, 2, 100000}", follow="{10, 13, 32, 58, 97}"), 8, 2),
     "ext_t": (gen_cfg("EXT", caps="{0, 1, 2, 100000}", alpha=ALPHA11, L="3"), 8, 2),
     "ext17_t": (gen_cfg("EXT", caps="{100000}", alpha=ALPHA17, L="2"), 8, 2),
-    "lane_t": (gen_cfg("LANE", caps="{100000}", follow="{10, 32}", L="70", lanebytes="0..255"), 8, 2),
+    "lane_t": (gen_cfg("LANE", caps="{100000}", follow="{10, 32}", L="70", lanebytes="{" + ", ".join(str(i) for i in range(256)) + "}"), 8, 2),
     "len_t": (gen_cfg("LANE", caps="{1, 100000}", follow="{10, 97}", L="100", lanebytes="{9, 10, 13, 32, 58}"), 8, 2),
     "chunk_t": (gen_cfg("EXT", kinds='{"chunk"}', maxlen=0, alpha=CHUNK14, L="6"), 1, 14),
     "code_t": (gen_cfg("SEQ", caps="{100000}", kinds='{"resp"}', maxlen=0, L='"CODE"'), 4, 3),
